@@ -242,11 +242,11 @@ pub fn check(case: &Case, env: &mut CaseEnv) -> Result<(), Failure> {
             collect_ops(e, &mut ops);
             env.classes(ops.into_iter().map(|o| o.to_string()));
         }
-        if grouped && t.rows > case.layout.opts.batch_size && env.kf_active("KF-groupby-streaming") && !env.replay {
+        if grouped && t.rows >= case.layout.opts.batch_size && env.kf_active("KF-groupby-streaming") && !env.replay {
             env.excluded("KF-groupby-streaming");
             continue;
         }
-        if !is_row && t.rows > case.layout.opts.batch_size && env.kf_active("KF-orderby-expr-streaming") && !env.replay {
+        if !is_row && t.rows >= case.layout.opts.batch_size && env.kf_active("KF-orderby-expr-streaming") && !env.replay {
             // aggregates over an arithmetic expression share the streamed-expression defect
             env.excluded("KF-expr-streaming");
             continue;
